@@ -337,6 +337,18 @@ pub fn hostile_dp(rep: &mut Report, seed: u64, idx: u64, verbose: bool) {
         let sc: Vec<Fault> = (0..n_txn).map(|_| if rng.below(100) < pct { rng.pick(&HOSTILE).clone() } else { Fault::None }).collect();
         *s.script.borrow_mut() = sc;
     }
+    // common-mode faults: every slave misbehaves in the same way on the same transactions
+    if rng.chance(1, 3) {
+        let sticky = rng.pick(&[Fault::DataInsteadOfSc, Fault::DataInsteadOfSc, Fault::ReplyLost, Fault::WrongDsap, Fault::ShortPdu, Fault::ScInsteadOfData]).clone();
+        let from = *rng.pick(&[0usize, 1, 1, 2, 2, 3, 4]);
+        let len = 2 + rng.usize(3 * (cfg.retry_limit as usize + 2));
+        for s in &run.slaves {
+            let mut sc = s.script.borrow_mut();
+            for k in from..(from + len).min(sc.len()) {
+                sc[k] = sticky.clone();
+            }
+        }
+    }
     // extended diagnostics of every shape (they are walked by the master's debug log line)
     for s in &run.slaves {
         let mut c = s.core.borrow_mut();
@@ -530,7 +542,7 @@ pub fn c05(ctx: &mut Ctx) {
         for app in 0..6u8 {
             for code in 0..n_seq {
                 idx += 1;
-                if !ctx.mine(idx) {
+                if !ctx.mine(idx) || ctx.over_budget() {
                     continue;
                 }
                 let mut script = Vec::new();
@@ -549,6 +561,9 @@ pub fn c05(ctx: &mut Ctx) {
     // random deep scripts
     let n = ctx.n(6000, 1_000_000, 2);
     for k in 0..n {
+        if ctx.over_budget() {
+            break;
+        }
         let i = 50_000_000 + ctx.shard + k * ctx.nshards;
         let prefix = (i % 6) as u8;
         let app = ((i / 6) % 6) as u8;
@@ -558,6 +573,9 @@ pub fn c05(ctx: &mut Ctx) {
     // (b) DP rig
     let n = ctx.n(3000, 400_000, 1);
     for k in 0..n {
+        if ctx.over_budget() {
+            break;
+        }
         let i = ctx.shard + k * ctx.nshards;
         ctx.rep.cur_case = format!("c05b {} seed {}", i, seed);
         hostile_dp(&mut ctx.rep, seed, i, false);
@@ -565,6 +583,9 @@ pub fn c05(ctx: &mut Ctx) {
     // (c) rings under fault plans: only panics / hangs / contract breaches are judged here
     let n = ctx.n(1500, 150_000, 1);
     for k in 0..n {
+        if ctx.over_budget() {
+            break;
+        }
         let i = ctx.shard + k * ctx.nshards;
         let mut tmp = Report::default();
         tmp.cur_case = format!("recover {} seed {}", i, seed);
@@ -576,6 +597,9 @@ pub fn c05(ctx: &mut Ctx) {
     // (d) mutational replay
     let n = ctx.n(3000, 300_000, 1);
     for k in 0..n {
+        if ctx.over_budget() {
+            break;
+        }
         let i = ctx.shard + k * ctx.nshards;
         ctx.rep.cur_case = format!("c05d {} seed {}", i, seed);
         mutational(&mut ctx.rep, seed, i);
